@@ -9,6 +9,7 @@ import (
 	"golang.org/x/text/unicode/norm"
 
 	"verif/harness/core"
+	"verif/harness/model"
 	"verif/harness/mon"
 )
 
@@ -241,7 +242,14 @@ func sweep(v cty.Value, depth int) string {
 			}
 		}
 		if ty.IsMapType() {
-			if len(u.AsValueMap()) != n {
+			am := u.AsValueMap()
+			for k := range am {
+				// the iterator re-normalises the keys it yields (StringVal); AsValueMap hands out the stored ones
+				if k != norm.NFC.String(k) {
+					return fmt.Sprintf("map key %q is not NFC-normalized (AsValueMap)", k)
+				}
+			}
+			if len(am) != n {
 				return "AsValueMap length disagrees with LengthInt"
 			}
 		} else if len(u.AsValueSlice()) != n {
@@ -318,6 +326,48 @@ func hugeNumber(v cty.Value, depth int) (huge bool) {
 	return false
 }
 
+// emptyOnlyByPrecision reports whether every unknown number in v whose range is
+// empty under exact comparison has inclusive bounds that are equal under the
+// documented number equality.
+func emptyOnlyByPrecision(v cty.Value, depth int) (ok bool) {
+	defer func() {
+		if recover() != nil {
+			ok = false
+		}
+	}()
+	u, _ := v.Unmark()
+	if u.IsNull() || depth > 8 {
+		return true
+	}
+	ty := u.Type()
+	if !u.IsKnown() {
+		if ty != cty.Number {
+			return true
+		}
+		rng := u.Range()
+		lo, loInc := rng.NumberLowerBound()
+		hi, hiInc := rng.NumberUpperBound()
+		if !lo.IsKnown() || !hi.IsKnown() || lo.IsNull() || hi.IsNull() {
+			return true
+		}
+		lf, hf := lo.AsBigFloat(), hi.AsBigFloat()
+		c := lf.Cmp(hf)
+		if c < 0 || (c == 0 && loInc && hiInc) {
+			return true // not empty
+		}
+		return c > 0 && loInc && hiInc && model.NumEqualDoc(lf, hf)
+	}
+	if ty.IsCollectionType() || ty.IsTupleType() || ty.IsObjectType() {
+		for it := u.ElementIterator(); it.Next(); {
+			_, ev := it.Element()
+			if !emptyOnlyByPrecision(ev, depth+1) {
+				return false
+			}
+		}
+	}
+	return true
+}
+
 func stateOf(v cty.Value) string {
 	u, _ := v.Unmark()
 	s := ""
@@ -340,57 +390,61 @@ func (m *monitor) see(site, class string, v cty.Value, wit func() string) bool {
 	m.sites[site]++
 	m.caseVals++
 	m.c.Count("site:" + site)
+	// public flavour: mon.WellFormed, then (if silent) the checks that need more of the public API than that walk uses
 	pub := mon.WellFormed(v)
 	hk := ""
 	if v != cty.NilVal {
 		hk = hookFlavour(v)
-	}
-	extra := ""
-	if pub == "" && v != cty.NilVal {
-		if s := typeNamesNFC(v.Type()); s != "" {
-			extra = s
-		} else {
-			extra = accessorSweep(v)
+		if pub == "" {
+			if pub = typeNamesNFC(v.Type()); pub == "" {
+				pub = accessorSweep(v)
+			}
 		}
 	}
-	if pub == "" && hk == "" && extra == "" {
+	const emptyRange = "refinement with an empty numeric range"
+	if clauseOf(pub) == emptyRange || clauseOf(hk) == emptyRange {
+		// Both shared walks compare the two bounds exactly. The library compares numbers by its documented
+		// equality (same shortest decimal text), under which NumberFloatVal(0.3) and ParseNumberVal("0.3") are
+		// the same number, so [parsed 0.3, float 0.3] is the one-point range {0.3}, not an empty one. The
+		// property says nothing about refinement ranges (C05 does); such a range is tolerated and counted.
+		if emptyOnlyByPrecision(v, 0) {
+			m.c.Count("tolerated:numeric range whose inclusive bounds are equal by documented equality but not exactly")
+			m.c.CrossNote("C05", site+": inclusive numeric bounds equal by documented equality, lower > upper exactly", wit())
+			if clauseOf(pub) == emptyRange {
+				pub = ""
+			}
+			if clauseOf(hk) == emptyRange {
+				hk = ""
+			}
+		}
+	}
+	if pub == "" && hk == "" {
 		return true
 	}
-	cls := class
 	state := "NilVal"
 	if v != cty.NilVal {
 		state = stateOf(v)
 	}
 	w := wit()
-	result := "NilVal"
-	if v != cty.NilVal {
-		result = gs(v)
-	}
-	detail := fmt.Sprintf("returned (%s) %s\npublic-API walk: %q\nhook walk: %q\nsweep: %q", state, result, pub, hk, extra)
+	detail := fmt.Sprintf("returned (%s) %s\npublic-API flavour: %q\nhook flavour: %q", state, gs(v), pub, hk)
 	pc, hc := clauseOf(pub), clauseOf(hk)
+	if strings.HasPrefix(pc, "other") {
+		pc = "accessor results are inconsistent with each other"
+	}
 	if pc != "" {
 		m.c.Count("ill-formed(public):" + pc)
-		m.c.Violate(site, pc, cls, w, detail)
+		m.c.Violate(site, pc, class, w, detail)
 	}
 	if hc != "" {
 		m.c.Count("ill-formed(hook):" + hc)
 		if hc != pc {
-			m.c.Violate(site, hc, cls, w, detail)
+			m.c.Violate(site, hc, class, w, detail)
 		}
-	}
-	if extra != "" {
-		ec := clauseOf(extra)
-		if strings.HasPrefix(ec, "other") {
-			ec = "accessor results are inconsistent with each other"
-		}
-		m.c.Count("ill-formed(sweep):" + ec)
-		m.c.Violate(site, ec, cls, w, detail)
 	}
 	if (pc == "") != (hc == "") {
-		one := pc
-		who := "public-API walk only"
+		one, who := pc, "public-API flavour only"
 		if one == "" {
-			one, who = hc, "hook walk only"
+			one, who = hc, "hook flavour only"
 		}
 		if sharedClauses[one] {
 			m.c.Count("flavours-disagree:" + one)
